@@ -31,12 +31,13 @@ PROPS = {
         'claim': 'Saturation clamp on total input power (after the input VOA), never above p_max and reduced only as needed; '
                  'ASE = h f B NF referred to the input; min/max-NF model laws (non-increasing with gain, dB-for-dB below '
                  'minimum gain, nf_min at max flat gain and nf_max at min gain within the 0.01 dB acceptance of '
-                 'estimate_nf_model), dual-stage Friis composition, band filter: all proved on the real functions.',
-        'level_note': '_gain_profile (polyfit + secant step) is an assumed contract (one gain per channel); its '
-                      'normalisation to the effective gain is not proved; OpenROADM / advanced polynomial NF models are '
-                      'read through uninterpreted polyval; a one-channel spectrum raises IndexError (finding F16)',
+                 'estimate_nf_model), OpenROADM ILA / preamp masks over the input power per 50 GHz and the advanced-model '
+                 'polynomial, dual-stage Friis composition, band filter: all proved on the real functions.',
+        'level_note': '_gain_profile (polyfit + secant step of the DGT model) is an assumed contract (one gain per channel) in '
+                      'the proofs; that its profile delivers the effective gain is a bounded stand-in (four shipped amplifier '
+                      'models x gains x tilts x input shapes, 0.02 dB); a one-channel spectrum raises IndexError (finding F16)',
         'trusted': NUMPY_TRUST + ['Edfa._gain_profile (assumed contract)'],
-        'extra': [],
+        'extra': [{'name': 'amp_gain', 'kind': 'bounded', 'script': 'bounded/amp_gain.py', 'timeout': 1200}],
     },
     'C06': {
         'level': 'proof',
